@@ -31,7 +31,7 @@ JRhs(r) ==
   ELSE IF r.k = "ip" THEN [ip |-> r.v]
   ELSE IF r.k = "regex" THEN [s |-> r.pat]
   ELSE IF r.k = "list" THEN [s |-> r.name]
-  ELSE JA([i \in 1..Len(r.items) |-> JItem(r.items[i])])       \* "items"
+  ELSE JA(Strict([i \in 1..Len(r.items) |-> JItem(r.items[i])]))       \* "items"
 
 RECURSIVE JLogical(_), JIndex(_), JArg(_)
 
@@ -41,10 +41,10 @@ JIdx(ix) == IF ix.k = "ai" THEN [kind |-> JC("ArrayIndex"), value |-> [n |-> ix.
 
 JIdent(id) == IF id.k = "field" THEN JC(id.name)
               ELSE [name |-> JC(id.name),
-                    args |-> JA([i \in 1..Len(id.args) |-> JArg(id.args[i])])]
+                    args |-> JA(Strict([i \in 1..Len(id.args) |-> JArg(id.args[i])]))]
 
 JIndex(ie) == IF ie.idx = <<>> THEN JIdent(ie.id)
-              ELSE JA(<<JIdent(ie.id)>> \o [i \in 1..Len(ie.idx) |-> JIdx(ie.idx[i])])
+              ELSE JA(<<JIdent(ie.id)>> \o Strict([i \in 1..Len(ie.idx) |-> JIdx(ie.idx[i])]))
 
 JArg(a) == IF a.k = "aidx" THEN [kind |-> JC("IndexExpr"), value |-> JIndex(a.e)]
            ELSE IF a.k = "alit" THEN [kind |-> JC("Literal"), value |-> JRhs(a.v)]
@@ -52,7 +52,7 @@ JArg(a) == IF a.k = "aidx" THEN [kind |-> JC("IndexExpr"), value |-> JIndex(a.e)
 
 JLogical(n) ==
   IF n.k = "comb" THEN [op |-> JC(n.op),
-                        items |-> JA([i \in 1..Len(n.items) |-> JLogical(n.items[i])])]
+                        items |-> JA(Strict([i \in 1..Len(n.items) |-> JLogical(n.items[i])]))]
   ELSE IF n.k = "cmp"
        THEN IF n.op = "IsTrue" THEN [lhs |-> JIndex(n.lhs), op |-> JC("IsTrue")]
             ELSE [lhs |-> JIndex(n.lhs), op |-> JC(n.op), rhs |-> JRhs(n.rhs)]
